@@ -13,6 +13,8 @@ Decided (AVN, exact):
             EKF.f and ROLEQ.attitude_propagation are (I + dt/2 Omega) q;
  ANGVEL     QuaternionArray.angular_velocities(dt)[t] == (2/dt) vec(conj(q_t) (x) q_{t+1}).
 Not decided: the O((|w|dt)^(k+1)) error constants, the cumulative-Euler 'integration' method.
+Added after the seeding rounds (DESIGN.md 6.6-6.8):
+ PROTOCOL (order/method forwarded), ANGVEL.gate (no tolerance gate between consecutive samples), null-accelerometer step of the MARG entry points.
 """
 import ast
 from math import factorial
